@@ -1300,8 +1300,15 @@ func (x *exec) walk(b walletdb.ReadBucket, m *dbmodel.Bucket, bwd, rwc bool, ctx
 // prevQuirk says whether an early nil from Cursor.Prev is tolerated here
 // (see strictBwd) and counts it.
 func (x *exec) prevQuirk(m *dbmodel.Bucket, ctx string) bool {
-	if ctx != "read-own-write" || !x.delDirty[m] || x.strictBwd {
+	if ctx != "read-own-write" || !x.delDirty[m] {
 		return false
+	}
+	if x.strictBwd {
+		// the specific, known situation gets its own signature so that any
+		// other backward-order violation is still reported as new
+		x.env.Count("obs.prev-stopped-at-emptied-page")
+		x.fail("cursor-order:dir=bwd:prev-stops-at-leaf-emptied-in-same-tx", "inside a read-write transaction a backward cursor walk ended early in a bucket that lost keys in this transaction (bbolt Cursor.Prev does not step over a leaf page emptied in the same transaction)")
+		return true
 	}
 	x.env.Count("obs.prev-stopped-at-emptied-page")
 	return true
